@@ -224,25 +224,197 @@ theorem defer_node_eq (f d p : Nat) (l : Bool) (ns : List Node) (env : Env) (b s
     runNodes (f + 1) d (.defer p l :: ns) env b s2 =
       runNodes f d ns (env.set p ⟨b, []⟩) (env.get p).back s2 := rfl
 
-/-- the full clause: in a loop body `pre ++ defer :: post`, what enters the `defer_tick` in one iteration leaves it
-in the next iteration of the same loop (and only then) -/
-def deferTickInLoopStatement : Prop :=
-  ∀ (f d p : Nat) (l : Bool) (post : List Node) (env : Env) (b1 b2 s2 : List Int) r1,
-    directDelays post = [] →
-    runNodes (f + 1) d (.defer p l :: post) env b1 s2 = some r1 →
-    runNodes (f + 1) d (.defer p l :: post) (swapAll [(p, l)] r1.1) b2 s2 =
-      runNodes f d post ((swapAll [(p, l)] r1.1).set p ⟨b2, []⟩) b1 s2
-
-/-- **`defer_tick` inside a loop delays by exactly one iteration** — proved under the frame hypothesis that the
-rest of the body leaves the handoff `p` alone (true when handoff names are distinct; not yet derived from the
-interpreter for arbitrary `post`): the batch `b1` that entered in iteration 1 is what `post` receives in iteration 2. -/
-theorem deferTick_in_loop_one_iteration_partial (f d p : Nat) (l : Bool) (post : List Node) (env : Env)
+/-- one-iteration delay under an explicit frame hypothesis (discharged by `frame` below) -/
+theorem aux_deferTick_under_frame (f d p : Nat) (l : Bool) (post : List Node) (env : Env)
     (b1 b2 s2 : List Int) (r1 : Env × List Int × Outs)
     (h1 : runNodes (f + 1) d (.defer p l :: post) env b1 s2 = some r1)
     (hframe : r1.1.get p = (env.set p ⟨b1, []⟩).get p) :
     runNodes (f + 1) d (.defer p l :: post) (swapAll [(p, l)] r1.1) b2 s2 =
       runNodes f d post ((swapAll [(p, l)] r1.1).set p ⟨b2, []⟩) b1 s2 := by
   rw [defer_node_eq, aux_swap_single, hframe, aux_get_set_same]
+
+/-! ### frame: a block only touches the handoffs it mentions -/
+
+/-- does the block (to the depth the budget reaches) contain the handoff `p`? -/
+def mentions (p : Nat) : Nat → List Node → Bool
+  | 0, _ => false
+  | _ + 1, [] => false
+  | f + 1, .defer q _ :: r => q == p || mentions p f r
+  | f + 1, .cycle q _ _ :: r => q == p || mentions p f r
+  | f + 1, .loop _ _ _ body :: r => mentions p f body || mentions p f r
+  | f + 1, _ :: r => mentions p f r
+
+theorem aux_get_set_ne (e : Env) (p q : Nat) (h : H) (hne : q ≠ p) : (Env.set e q h).get p = e.get p := by
+  have hq : (q == p) = false := by simpa using hne
+  simp only [Env.set, Env.get, List.find?_cons, hq]
+  congr 1
+  induction e with
+  | nil => rfl
+  | cons x xs ih =>
+    simp only [List.filter_cons]
+    by_cases hx : x.1 = q
+    · have : (x.1 == p) = false := by subst hx; simpa using hne
+      simp only [hx, bne_self_eq_false, Bool.false_eq_true, ↓reduceIte, List.find?_cons]
+      rw [hx] at this
+      simp only [this]
+      exact ih
+    · have : (x.1 != q) = true := by simpa using hx
+      simp only [this, ↓reduceIte, List.find?_cons]
+      split <;> simp_all
+
+theorem aux_swapAll_frame (p : Nat) (delays : List (Nat × Bool)) (env : Env)
+    (h : ∀ x ∈ delays, x.1 ≠ p) : (swapAll delays env).get p = env.get p := by
+  unfold swapAll
+  induction delays generalizing env with
+  | nil => rfl
+  | cons d ds ih =>
+    simp only [List.foldl_cons]
+    rw [ih _ (fun x hx => h x (by simp [hx]))]
+    exact aux_get_set_ne _ _ _ _ (h d (by simp))
+
+theorem aux_direct_not_mentioned (p : Nat) (f d : Nat) (body : List Node) (env : Env) (b s2 : List Int)
+    (hrun : (runNodes f d body env b s2).isSome) (hm : mentions p f body = false) :
+    ∀ x ∈ directDelays body, x.1 ≠ p := by
+  induction f generalizing d body env b with
+  | zero => simp [runNodes] at hrun
+  | succ k ih =>
+    cases body with
+    | nil => simp [directDelays]
+    | cons n ns =>
+      cases n with
+      | map c => simp only [runNodes] at hrun; simp only [mentions] at hm; simpa [directDelays] using ih _ _ _ _ hrun hm
+      | tap i =>
+        simp only [runNodes, Option.isSome_map] at hrun; simp only [mentions] at hm
+        simpa [directDelays] using ih _ _ _ _ hrun hm
+      | defer q l =>
+        simp only [runNodes] at hrun
+        simp only [mentions, Bool.or_eq_false_iff, beq_eq_false_iff_ne] at hm
+        intro x hx
+        simp only [directDelays, List.mem_cons] at hx
+        rcases hx with rfl | hx
+        · exact hm.1
+        · exact ih _ _ _ _ hrun hm.2 x hx
+      | cycle q l m =>
+        simp only [runNodes] at hrun
+        simp only [mentions, Bool.or_eq_false_iff, beq_eq_false_iff_ne] at hm
+        intro x hx
+        simp only [directDelays, List.mem_cons] at hx
+        rcases hx with rfl | hx
+        · exact hm.1
+        · exact ih _ _ _ _ hrun hm.2 x hx
+      | loop id ml ex bd =>
+        simp only [mentions, Bool.or_eq_false_iff] at hm
+        simp only [directDelays]
+        simp only [runNodes] at hrun
+        split at hrun
+        · rename_i st _
+          simp only [Option.isSome_map] at hrun
+          exact ih _ _ _ _ hrun hm.2
+        · simp at hrun
+
+
+theorem aux_iterate_env (p : Nat) (gate : LSt → Bool) (step : LSt → Option LSt)
+    (hstep : ∀ st st1, step st = some st1 → st1.env.get p = st.env.get p) (fuel : Nat) (st0 st' : LSt) (n : Nat)
+    (h : iterate gate step fuel st0 = some (st', n)) : st'.env.get p = st0.env.get p := by
+  induction fuel generalizing st0 n with
+  | zero =>
+    simp only [iterate] at h
+    split at h
+    · simp at h
+    · simp only [Option.some.injEq, Prod.mk.injEq] at h; rw [h.1]
+  | succ k ih =>
+    simp only [iterate] at h
+    split at h
+    · split at h
+      · rename_i s1 hs1
+        cases hr : iterate gate step k s1 with
+        | none => simp [hr] at h
+        | some r =>
+          obtain ⟨s2, m⟩ := r
+          simp only [hr, Option.map_some, Option.some.injEq, Prod.mk.injEq] at h
+          obtain ⟨rfl, _⟩ := h
+          rw [ih s1 m hr, hstep st0 s1 hs1]
+      · simp at h
+    · simp only [Option.some.injEq, Prod.mk.injEq] at h; rw [h.1]
+
+theorem aux_loopFin_env (p : Nat) (uncond root : Bool) (gate : LSt → Bool) (step : LSt → Option LSt)
+    (hstep : ∀ st st1, step st = some st1 → st1.env.get p = st.env.get p) (f : Nat) (st0 st : LSt)
+    (h : loopFin uncond root gate step f st0 = some st) : st.env.get p = st0.env.get p := by
+  unfold loopFin at h
+  split at h
+  · exact hstep _ _ h
+  · split at h
+    · split at h
+      · exact hstep _ _ h
+      · simp only [Option.some.injEq] at h; rw [h]
+    · cases hi : iterate gate step f st0 with
+      | none => simp [hi] at h
+      | some r =>
+        obtain ⟨s', n⟩ := r
+        simp only [hi, Option.map_some, Option.some.injEq] at h
+        subst h
+        exact aux_iterate_env p gate step hstep f st0 s' n hi
+
+/-- **Frame**: running a block changes no delayed handoff that the block does not mention. -/
+theorem frame (p : Nat) (f d : Nat) (ns : List Node) (env : Env) (b s2 : List Int) (r : Env × List Int × Outs)
+    (h : runNodes f d ns env b s2 = some r) (hm : mentions p f ns = false) : r.1.get p = env.get p := by
+  induction f generalizing d ns env b r with
+  | zero => simp [runNodes] at h
+  | succ k ih =>
+    cases ns with
+    | nil => simp only [runNodes, Option.some.injEq] at h; rw [← h]
+    | cons n ns =>
+      cases n with
+      | map c => simp only [runNodes] at h; simp only [mentions] at hm; exact ih _ _ _ _ _ h hm
+      | tap i =>
+        simp only [runNodes] at h; simp only [mentions] at hm
+        cases hr : runNodes k d ns env b s2 with
+        | none => simp [hr] at h
+        | some r' =>
+          simp only [hr, Option.map_some, Option.some.injEq] at h
+          have hr1 : r.1 = r'.1 := by rw [← h]
+          rw [hr1]; exact ih d ns env b r' hr hm
+      | defer q l =>
+        simp only [runNodes] at h
+        simp only [mentions, Bool.or_eq_false_iff, beq_eq_false_iff_ne] at hm
+        rw [ih _ _ _ _ _ h hm.2, aux_get_set_ne _ _ _ _ hm.1]
+      | cycle q l m =>
+        simp only [runNodes] at h
+        simp only [mentions, Bool.or_eq_false_iff, beq_eq_false_iff_ne] at hm
+        rw [ih _ _ _ _ _ h hm.2, aux_get_set_ne _ _ _ _ hm.1]
+      | loop id ml ex body =>
+        simp only [mentions, Bool.or_eq_false_iff] at hm
+        rw [loop_node_eq] at h
+        split at h
+        · rename_i st hfin
+          cases hr : runNodes k d ns st.env st.exit s2 with
+          | none => simp [hr] at h
+          | some r' =>
+            simp only [hr, Option.map_some, Option.some.injEq] at h
+            have hr1 : r.1 = r'.1 := by rw [← h]
+            rw [hr1, ih d ns st.env st.exit r' hr hm.2]
+            refine aux_loopFin_env p _ _ _ _ ?_ k _ st hfin
+            intro s0 s1 hs
+            cases hb : runNodes k (d + 1) body s0.env (s0.main ++ s0.extra) s2 with
+            | none => simp [hb] at hs
+            | some rb =>
+              simp only [hb, Option.some.injEq] at hs
+              have hs1 : s1.env = swapAll (directDelays body) rb.1 := by rw [← hs]
+              rw [hs1, aux_swapAll_frame p _ _ (aux_direct_not_mentioned p k (d + 1) body s0.env (s0.main ++ s0.extra) s2 (by rw [hb]; rfl) hm.1)]
+              exact ih (d + 1) body s0.env _ rb hb hm.1
+        · simp at h
+
+/-- **`defer_tick` inside a loop delays by exactly one iteration**, for a body `defer :: post` whose rest does
+not mention the handoff: what entered in one iteration (`b1`) is what `post` receives in the next. -/
+theorem deferTick_in_loop_one_iteration (f d p : Nat) (l : Bool) (post : List Node) (env : Env)
+    (b1 b2 s2 : List Int) (r1 : Env × List Int × Outs)
+    (h1 : runNodes (f + 1) d (.defer p l :: post) env b1 s2 = some r1)
+    (hpost : mentions p f post = false) :
+    runNodes (f + 1) d (.defer p l :: post) (swapAll [(p, l)] r1.1) b2 s2 =
+      runNodes f d post ((swapAll [(p, l)] r1.1).set p ⟨b2, []⟩) b1 s2 := by
+  apply aux_deferTick_under_frame f d p l post env b1 b2 s2 r1 h1
+  rw [defer_node_eq] at h1
+  exact frame p f d post _ _ s2 r1 h1 hpost
 
 /-! ### the catalogue of windowing operators (regenerated from the operator sources on every run) -/
 
